@@ -66,6 +66,10 @@ pub enum MarkerKind {
     NoMarker,
     Coin,
     Restricted,
+    /// the module answers, but with no marker in the response
+    EmptyResponse,
+    /// the module answers with something that is not a marker account
+    Garbage,
 }
 impl MarkerKind {
     pub fn name(&self) -> &'static str {
@@ -73,12 +77,16 @@ impl MarkerKind {
             MarkerKind::NoMarker => "none",
             MarkerKind::Coin => "coin",
             MarkerKind::Restricted => "restricted",
+            MarkerKind::EmptyResponse => "empty-response",
+            MarkerKind::Garbage => "garbage",
         }
     }
     pub fn parse(s: &str) -> MarkerKind {
         match s {
             "coin" => MarkerKind::Coin,
             "restricted" => MarkerKind::Restricted,
+            "empty-response" => MarkerKind::EmptyResponse,
+            "garbage" => MarkerKind::Garbage,
             _ => MarkerKind::NoMarker,
         }
     }
@@ -87,6 +95,8 @@ impl MarkerKind {
             MarkerKind::NoMarker => 'n',
             MarkerKind::Coin => 'c',
             MarkerKind::Restricted => 'R',
+            MarkerKind::EmptyResponse => 'e',
+            MarkerKind::Garbage => 'g',
         }
     }
 }
@@ -124,6 +134,10 @@ impl Querier for ChainQ {
                             "marker {} not found",
                             req.id
                         ))),
+                        MarkerKind::EmptyResponse => SystemResult::Ok(ContractResult::Ok(to_binary(&QueryMarkerResponse { marker: None }).unwrap())),
+                        // (provwasm's `Any` cannot serialise an unknown payload, so this is answered like a
+                        // module error)
+                        MarkerKind::Garbage => SystemResult::Ok(ContractResult::Err("unexpected account type".into())),
                         MarkerKind::Coin | MarkerKind::Restricted => {
                             let m = MarkerAccount {
                                 base_account: Some(BaseAccount {
